@@ -391,5 +391,16 @@ Proof.
     all: try (exfalso; unfold noresched, resched_on in Ha; subst; rewrite Z.eqb_refl in Ha; discriminate).
     all: try (subst; apply H; solve [assumption | lia]).
     all: try (subst; reflexivity).
-    all: idtac "HREM". Show.
+    all: try (exfalso; pose proof (H i Hi Oi Si) as HH; subst; congruence).
+    all: try (exfalso; apply n; apply U; solve [assumption | lia | congruence]).
+  - (* no fire while pending *)
+    intros i Hi Oi (c & Si) o. rewrite step_log, new_obs_delta. intros Hin. apply in_app_or in Hin.
+    assert (Hb : forall o, In o (log s) -> fires_for tk o = true -> tk <= gen s) by (intros; eapply fires_bounded; eassumption).
+    revert Hi Oi Si Hin.
+    destruct e; cbn [is_issue noresched resched_on] in *; try specialize (Hnew eq_refl); unfold delta; cbn zeta; unf; proj; brk; proj;
+      intros Hi Oi Si Hin; cbn [In] in Hin;
+      repeat match goal with H : _ \/ _ |- _ => destruct H | H : False |- _ => destruct H end; subst o || idtac;
+      try reflexivity; try discriminate; try lia;
+      try (eapply Q; [| | | eassumption]; [eassumption || lia| assumption | eexists; eassumption]).
+    all: idtac "QREM". Show.
 Abort.
